@@ -389,3 +389,29 @@ def other_values():
         ("str", lambda c: StrV(None, "text")),
         ("None", lambda c: NONE),
     ]
+
+
+def known_truth(st: State, v):
+    """Truth value of a (possibly symbolic) condition under the comparison facts of the path, or None."""
+    if isinstance(v, BoolV):
+        return v.val
+    if not isinstance(v, CmpV):
+        return None
+    diff = st.norm(v.l.rf) - st.norm(v.r.rf)
+    holds = lambda o_, s_: {"==": s_ == 0, "!=": s_ != 0, "<": s_ < 0, "<=": s_ <= 0, ">": s_ > 0, ">=": s_ >= 0}[o_]
+    flip = {"==": "==", "!=": "!=", "<": ">", "<=": ">=", ">": "<", ">=": "<="}
+    if diff.is_const():
+        r = holds(v.op, (diff.const_value() > 0) - (diff.const_value() < 0))
+        return (not r) if v.negated else r
+    k1, k2 = diff.key(), (RF.const(0) - diff).key()
+    allowed = {-1, 0, 1}
+    for k, o_, r_ in st.cmp_facts:
+        if k == k2 and k2 != k1:
+            k, o_ = k1, flip[o_]
+        if k == k1:
+            allowed = {s_ for s_ in allowed if holds(o_, s_) == r_}
+    vals = {holds(v.op, s_) for s_ in allowed}
+    if len(vals) != 1:
+        return None
+    r = vals.pop()
+    return (not r) if v.negated else r
